@@ -259,7 +259,7 @@ class Renderer:
         else:
             key = dns.tsig.Key(keyname, secret, algorithm)
         tsig = _make_tsig(  # pyright: ignore
-            keyname, algorithm, 0, fudge, b"", id, tsig_error, other_data
+            keyname, key.algorithm, 0, fudge, b"", id, tsig_error, other_data
         )
         tsig, _ = dns.tsig.sign(s, key, tsig[0], int(time.time()), request_mac)
         self._write_tsig(tsig, keyname)
@@ -291,7 +291,7 @@ class Renderer:
         else:
             key = dns.tsig.Key(keyname, secret, algorithm)
         tsig = _make_tsig(  # pyright: ignore
-            keyname, algorithm, 0, fudge, b"", id, tsig_error, other_data
+            keyname, key.algorithm, 0, fudge, b"", id, tsig_error, other_data
         )
         tsig, ctx = dns.tsig.sign(
             s, key, tsig[0], int(time.time()), request_mac, ctx, True
